@@ -13,7 +13,67 @@ class C10(Prop):
     id = "C10"
     title = "call_out fires exactly once, on time, and can be cancelled"
     lean_modules = ["NV.C10.Props"]
-    theorems = ["NV.C10.N_pow2", "NV.C10.slotOf_eq_mod"]
+    theorems = ["NV.C10.N_pow2",
+                "NV.C10.slotOf_eq_mod",
+                "NV.C10.dueOf_spec",
+                "NV.C10.dueOf_lt_iff",
+                "NV.C10.dueOf_inj",
+                "NV.C10.dueOf_gt_iff",
+                "NV.C10.dueOf_succ_other",
+                "NV.C10.dueOf_succ_cur",
+                "NV.C10.newCallOut_rot_due",
+                "NV.C10.newCallOut_rot_pos",
+                "NV.C10.coRot_due",
+                "NV.C10.inWheel_newCallOut",
+                "NV.C10.timeLeft_eq",
+                "NV.C10.cum_insertDelta",
+                "NV.C10.cum_removeFirst",
+                "NV.C10.cum_removeAllList",
+                "NV.C10.cum_dec_head",
+                "NV.C10.findFirst_eq",
+                "NV.C10.newCallOut_ok",
+                "NV.C10.removeByHandle_ok",
+                "NV.C10.removeByName_ok",
+                "NV.C10.removeAll_ok",
+                "NV.C10.stepOp_ok",
+                "NV.C10.runOps_ok",
+                "NV.C10.fireOne_ok",
+                "NV.C10.visit_ok",
+                "NV.C10.decHead_inv",
+                "NV.C10.sweepSecond_ok",
+                "NV.C10.sweepLoop_ok",
+                "NV.C10.sweep_ok",
+                "NV.C10.stepCmd_rest",
+                "NV.C10.runCmds_rest",
+                "NV.C10.wheel_unique",
+                "NV.C10.toPend_inj",
+                "NV.C10.first_has_largest_handle",
+                "NV.C10.info_perm",
+                "NV.C10.sim_co",
+                "NV.C10.sim_rmh",
+                "NV.C10.sim_fh",
+                "NV.C10.sim_rmn",
+                "NV.C10.sim_fnm",
+                "NV.C10.sim_rmall",
+                "NV.C10.sim_dest",
+                "NV.C10.sim_info",
+                "NV.C10.stepOp_sim",
+                "NV.C10.runOps_sim",
+                "NV.C10.fireOne_sim",
+                "NV.C10.visit_sim",
+                "NV.C10.sweepSecond_sim",
+                "NV.C10.sweepLoop_sim",
+                "NV.C10.sweep_sim",
+                "NV.C10.tickend_sim",
+                "NV.C10.stepCmd_sim",
+                "NV.C10.runCmds_sim",
+                "NV.C10.model_satisfies_spec",
+                "NV.C10.wheelInv_always",
+                "NV.C10.sweep_catches_up",
+                "NV.C10.time_left_exact",
+                "NV.C10.handle_unique",
+                "NV.C10.deltas_ok",
+                "NV.C10.handles_fit_int"]
     consts = [("calloutCycleSize", "CALLOUT_CYCLE_SIZE")]
     const_headers = ["lib/efuns/options.h"]
     quick_n = 300
@@ -27,7 +87,8 @@ class C10(Prop):
                   "model on the same generated histories; the Lean specification oracle judges every implementation trace")
     level_note = ("trusted: Lean kernel; extract.py; the correspondence harness (differential, only the generated histories); "
                   "callbacks are oracle scripts; command_giver handling, function-pointer call_outs and handle overflow after "
-                  "2^26 call_outs are not modelled")
+                  "2^26 call_outs are not modelled (side condition of NV.C10.handles_fit_int); top theorem "
+                  "NV.C10.model_satisfies_spec: the oracle accepts every history of the model, for all scripts and commands")
     rule = ("cases = corpus + known-finding inputs + boundary list + seeded random histories of "
             "call_out/remove/find (by name and handle)/remove-all/destruct/error at top level and inside call_out "
             "callbacks, delays on both sides of the wheel size, tick spacings 0..200 incl. backlog; a case is "
